@@ -183,7 +183,7 @@ def _oracle(ctx):
     rng = np_seed(ctx, 6)
     stats = {'patch': 0.0, 'projection': 0.0, 'curved': 0.0}
     worst = {}
-    nmesh = ctx.n(3, 10)
+    nmesh = ctx.n(3, 24)
     for kind in KINDS:
         for rep in range(nmesh):
             res = _guard(ctx, f'mesh:{kind}', {'kind': kind}, lambda: O.make_mesh(kind, rng))
@@ -194,7 +194,7 @@ def _oracle(ctx):
             ctx.hist('cells', m.t.shape[1])
             fb = kind != 'wedge'
             for ef, deg in O.elements_for(kind):
-                for prob in ('poisson', 'reaction'):
+                for prob in ('poisson', 'reaction') + (('unit_load',) if deg >= 2 else ()):
                     elem = ef()
                     key = f'patch:{prob}:{kind}:{type(elem).__name__}'
                     r = _guard(ctx, key, {'mesh': desc}, lambda: O.patch_scalar(m, elem, deg, prob, rng, facet_bases=fb))
@@ -222,10 +222,20 @@ def _oracle(ctx):
                 worst[key] = max(worst.get(key, 0), err)
                 if not (err <= TOL):
                     ctx.fail(key, f'elasticity patch test: deviation {err:.2e} (rel)', {'mesh': desc, 'info': info, 'error': err})
+                key = f'patch:vector_poisson:{kind}:{type(selem).__name__}'
+                r = _guard(ctx, key, {'mesh': desc}, lambda: O.patch_vector_poisson(m, selem, deg, rng))
+                if r is not None:
+                    err, info = r
+                    ctx.count((key, desc, info), nontrivial=bool(info['neumann_facets']))
+                    stats['patch'] = max(stats['patch'], err)
+                    worst[key] = max(worst.get(key, 0), err)
+                    if not (err <= TOL):
+                        ctx.fail(key, f'vector Poisson patch test: deviation {err:.2e} (rel)', {'mesh': desc, 'info': info, 'error': err})
             # projections
             for ef, deg in O.elements_for(kind):
                 elem = ef()
                 runs = [('whole', lambda: O.projection_whole(m, elem, rng)),
+                        ('whole-complex', lambda: O.projection_complex(m, elem, rng)),
                         ('subdomain', lambda: O.projection_subdomain(m, elem, rng)),
                         ('subdomain-arg', lambda: O.projection_subdomain(m, elem, rng, via_argument=True))]
                 if kind not in ('line', 'wedge'):
@@ -245,8 +255,12 @@ def _oracle(ctx):
                                  {'mesh': desc, 'info': info, 'error': err})
     # vector-valued / H(div) / H(curl) spaces: whole-mesh projection identity (oracle only)
     import skfem as s
-    extra = [('tri', [lambda: s.ElementVector(s.ElementTriP2()), s.ElementTriRT1, s.ElementTriN1, s.ElementTriP0, s.ElementTriCR]),
-             ('tet', [lambda: s.ElementVector(s.ElementTetP1()), s.ElementTetRT0, s.ElementTetN0]),
+    extra = [('tri', [lambda: s.ElementVector(s.ElementTriP2()), s.ElementTriRT1, s.ElementTriRT2, s.ElementTriBDM1, s.ElementTriN1, s.ElementTriN2,
+                      s.ElementTriP0, s.ElementTriCR, s.ElementTriP1DG, lambda: s.ElementDG(s.ElementTriP2()), s.ElementTriHHJ0, s.ElementTriHHJ1,
+                      s.ElementTriMorley, lambda: s.ElementTriP2() * s.ElementTriP1() * s.ElementTriP0(),
+                      lambda: s.ElementVector(s.ElementTriP2()) * s.ElementTriP1() * s.ElementTriP1()]),
+             ('tet', [lambda: s.ElementVector(s.ElementTetP1()), s.ElementTetRT0, s.ElementTetN0,
+                      lambda: s.ElementVector(s.ElementTetP2()) * s.ElementTetP1() * s.ElementTetP0()]),
              ('quad_general', [lambda: s.ElementVector(s.ElementQuad2()), s.ElementQuad0, s.ElementQuadRT0])]
     for kind, efs in extra:
         m, desc = O.make_mesh(kind, rng)
